@@ -460,8 +460,12 @@ class Gen:
                 O = []
                 for o in prev_O:
                     r = rng.random()
-                    if r < 0.45:
+                    if r < 0.3:
                         c = o + '/' + rng.choice(NAMES[:2])
+                    elif r < 0.5 and o.count('/') < 2:
+                        # two levels below a former output file
+                        c = o + '/' + rng.choice(NAMES[:2]) + '/' + \
+                            rng.choice(NAMES[:2])
                     elif r < 0.75 and '/' in o:
                         c = o.rsplit('/', 1)[0]
                     else:
